@@ -4,6 +4,7 @@
 (*  trace = [file, top, ins (port names), outs (port names), pre, steps]         *)
 (*    pre  = [i |-> input values, o |-> outputs at power-up (inputs applied)]    *)
 (*    step = [i |-> input values held during the cycle, o |-> outputs after the edge] *)
+(*    vars = names of Verilog variables compared with step.v (C02 state attributes)  *)
 (*  values are limb sequences.                                                   *)
 EXTENDS VerilogSem, Json, IOUtils
 
@@ -26,7 +27,11 @@ PowerJudge(s, mm) ==
     IF s.n >= MaxSweeps THEN bad' = TRUE /\ Say("V", "combinational-loop-in-emitted-text", 0)
     ELSE IF mm # {} THEN bad' = TRUE /\ Say("V", "power-up", <<T.outs[CHOOSE k \in mm : TRUE], s.env[T.outs[CHOOSE k \in mm : TRUE]]>>)
     ELSE bad' = FALSE
-PowerWith(s) == PowerJudge(s, Mismatch(s.env, T.pre.o))
+PowerJudgeQuiet(s) == TRUE
+PowerWith(s) ==
+    IF T.xcheck = 1 /\ \E k \in 1..Len(T.outs) : T.outs[k] \in Uninit(fm)
+    THEN bad' = FALSE /\ Say("X", "x-at-power-up", T.outs[CHOOSE k \in 1..Len(T.outs) : T.outs[k] \in Uninit(fm)]) /\ PowerJudgeQuiet(s)
+    ELSE PowerJudge(s, Mismatch(s.env, T.pre.o))
 PowerUp ==
     /\ l = 0 /\ ~bad
     /\ l' = 1 /\ tid' = tid /\ st' = st /\ fm' = fm
@@ -36,7 +41,13 @@ StepJudge(env, mm) ==
     IF mm # {} THEN bad' = TRUE /\ Say("V", "cycle", <<T.outs[CHOOSE k \in mm : TRUE], env[T.outs[CHOOSE k \in mm : TRUE]]>>)
     ELSE bad' = FALSE
 StepEnv(env) == IF T.steps[l].skip = 1 THEN bad' = FALSE ELSE StepJudge(env, Mismatch(env, T.steps[l].o))
-StepWith(ins, s2) == st' = s2 /\ StepEnv(Settle(T.file, fm, ins, s2).env)
+\* C02: Verilog variables that carry the names of Python state attributes must follow the same trajectory
+VarMismatch(s2) == {k \in 1..Len(T.vars) : T.vars[k] \notin DOMAIN s2.vars \/ Norm(s2.vars[T.vars[k]], 32) # Norm(T.steps[l].v[k], 32)}
+StepWith(ins, s2) ==
+    /\ st' = s2
+    /\ IF T.steps[l].skip = 0 /\ VarMismatch(s2) # {}
+       THEN bad' = TRUE /\ Say("V", "state-variable", T.vars[CHOOSE k \in VarMismatch(s2) : TRUE])
+       ELSE StepEnv(Settle(T.file, fm, ins, s2).env)
 StepIns(ins) == StepWith(ins, Edge(T.file, fm, ins, st))
 Step ==
     /\ l >= 1 /\ l <= Len(T.steps) /\ ~bad
